@@ -248,6 +248,20 @@ def pmap(fn, items, workers=None, chunksize=1):
     return out
 
 
+def in_child(fn, *args):
+    """Run fn(*args) in a forked child and return its result.  The parent of
+    a worker pool must never touch HDF5 itself: forking a process that has
+    used the HDF5 library deadlocks the children."""
+    global _POOL_FN
+    import multiprocessing as mp
+    _POOL_FN = lambda a: fn(*a)      # noqa: E731
+    with mp.get_context("fork").Pool(1) as pool:
+        i, res, err = pool.apply(_pool_call, ((0, args),))
+    if err is not None:
+        raise HarnessFault("child failed:\n" + err)
+    return res
+
+
 def import_aurel():
     """Import aurel from $VERIF_REPO/src (default /repo/src) and assert it."""
     src = os.path.join(REPO, "src")
